@@ -210,6 +210,11 @@ def run_shard(spec):
                                  {"spec": "python", "id": "g1", "execmodel": "main_thread_only", "activity": "sigint_ignored"},
                                  {"spec": "popen", "id": "g2", "execmodel": "thread", "activity": "idle"}],
                     "action": "terminate", "timeout": 0.5, "has_via": False, "pre_exit": ["g0", "g1"], "pre_exit_replace": ["g0", "g1"]}
+    if spec["shard"] == 2:
+        # a gateway that another thread finishes making while terminate() is busy with a stuck member
+        cases.append({"gateways": [{"spec": "popen", "id": "g0", "execmodel": "thread", "activity": "stopped"},
+                                   {"spec": "popen", "id": "g1", "execmodel": "thread", "activity": "idle"}],
+                      "action": "terminate", "timeout": 3.0, "has_via": False, "pre_exit": [], "makegateway_during_terminate": 0.3})
     if spec["shard"] == 1:
         # the forwarder of a proxied member is stopped when terminate() begins and is killed two seconds into it
         cases.append({"gateways": [{"spec": "popen", "id": "g0", "execmodel": "thread", "activity": "stopped"},
@@ -256,6 +261,13 @@ def run_shard(spec):
         states = ",".join(sorted({g["activity"] for g in c["gateways"]}))
         if td["seconds"] > bound:
             res.violation(f"terminate-too-slow:{'via' if c['has_via'] else 'direct'}", f"{key}: {td['seconds']}s > bound {bound}s")
+        lm = next((e for e in r["events"] if e.get("event") == "late_makegateway"), None)
+        if lm is not None:
+            res.count("gateways_made_while_terminate_ran")
+            if not lm["finished_before_terminate_returned"]:
+                # made after terminate() was through: whatever it left is the caller's to clean up, not terminate's
+                r["local_alive"] = []
+                td["len_group"] = 0
         if td.get("raised"):
             res.violation("terminate-raised:" + td["raised"].split(":", 1)[0], f"{key}: {td['raised']}")
         if td["len_group"] != 0:
